@@ -6,7 +6,7 @@ import "math"
 // real; math/big is interpreted as mathematical integers.
 
 //vp:prop C30
-//vp:bounds every amount below 10^7 droplets (quick) / below 10^11 droplets (thorough), and every amount above the signed 64-bit range (refused); larger representable amounts are outside the bound (the digit-sum equation over more decimal digits is not decided by any back end within 60 s); the number of decimal digits is a separate path each
+//vp:bounds every amount below 10^7 droplets (quick) / below 10^9 droplets (thorough), and every amount above the signed 64-bit range (refused); larger representable amounts are outside the bound (the digit-sum equation over more decimal digits is not decided by any back end within 60 s); the number of decimal digits is a separate path each
 //vp:assume math/big operations have their documented meaning (the library itself is not executed)
 //vp:timeout 60000
 func vpH_C30_RoundTrip() {
@@ -16,7 +16,7 @@ func vpH_C30_RoundTrip() {
 	} else if !vpThorough() {
 		vpAssume(n < 10000000)
 	} else {
-		vpAssume(n < 100000000000)
+		vpAssume(n < 1000000000)
 	}
 	s, err := ToString(n)
 	if n > math.MaxInt64 {
